@@ -424,3 +424,13 @@ pub fn events_of(e: &Env, names: &Names, contract: &Address, conv: &dyn Fn(i128)
     }
     out
 }
+
+
+/// Lets time pass between two calls of a random history (models whose properties do not mention time): a value
+/// that a change moved from persistent / instance storage into an expiring temporary entry is gone afterwards,
+/// and the getters judged after the next call reveal it.  `by` stays far below the harness's persistent TTLs.
+pub fn time_passes(e: &Env, r: &mut StdRng, by: u32) {
+    if r.gen_ratio(1, 20) {
+        set_seq(e, seq(e) + by);
+    }
+}
